@@ -453,6 +453,17 @@ class Ctx:
         self.coverage["theorems"] = names
         return ok, out, failed
 
+    def coqchk(self, modules, timeout=900):
+        """thorough tier: re-check the compiled property library with the independent checker and record the axioms
+        it reports.  modules e.g. ["XV.C05.Properties_C05"]"""
+        t0 = time.time()
+        rc, out = sh("timeout %d coqchk -o -silent -Q theories XV %s 2>&1 | tail -40" % (timeout, " ".join(modules)),
+                     cwd=COQ, timeout=timeout + 30)
+        self.coverage["coqchk"] = {"modules": modules, "rc": rc, "tail": out[-1500:], "wall_s": round(time.time() - t0, 1)}
+        if rc != 0 or "Fatal" in out or "Error" in out:
+            self.violation("coqchk", {"what": "coqchk rejected the compiled library", "output": out[-3000:]}, no_input=True)
+        return out
+
     def ocaml(self, name, modules, driver="driver.ml"):
         try:
             return build_ocaml(name, modules, driver, self.log)
